@@ -70,11 +70,17 @@ TRet ==
   /\ l <= Len(Trace) /\ Trace[l].e = "ret"
   /\ LET is == Trace[l].issues  g == Trace[l].g
          dup == \E j1, j2 \in DOMAIN is : j1 # j2 /\ is[j1] = is[j2]
+         \* an issue the user already owns (returned earlier, not handed back since) is returned again
+         again == {is[j] : j \in {x \in DOMAIN is : 0 \in holder["issue"][is[x]]}}
+         \* issues that did not come from the pool (a front end allocates its own) are first seen here: they are new objects
+         top == IF is = <<>> THEN 0 ELSE CHOOSE m \in {is[j] : j \in DOMAIN is} : \A j \in DOMAIN is : is[j] <= m
      IN /\ holder' = [holder EXCEPT !["issue"] = [id \in Ids |-> IF \E j \in DOMAIN is : is[j] = id THEN (holder["issue"][id] \ {g}) \cup {0} ELSE holder["issue"][id]]]
-        /\ IF dup THEN Emit(<<V("one-object-returned-as-two-issues", l, is)>>) ELSE TRUE
+        /\ fresh' = [fresh EXCEPT !["issue"] = IF top >= @ THEN top + 1 ELSE @]
+        /\ IF dup THEN Emit(<<V("one-object-returned-as-two-issues", l, is)>>)
+           ELSE IF again # {} THEN Emit(<<V("issue-object-returned-by-two-calls", l, again)>>) ELSE TRUE
         /\ clash' = IF dup THEN clash \cup {[kind |-> "issue", id |-> 0, what |-> "one object returned as two issues"]} ELSE clash
   /\ l' = l + 1
-  /\ UNCHANGED <<bag, wr, fresh, pc, ncall, stale, episode>>
+  /\ UNCHANGED <<bag, wr, pc, ncall, stale, episode>>
 
 \* differential probe result logged by the harness: the probe call after the history vs on cleared pools
 TProbe ==
